@@ -15,6 +15,8 @@
 (*  attach tty, cons          AttachTo(cons) was invoked on terminal tty     *)
 (*  state  tty, st            SetState(st) was invoked on terminal tty       *)
 (*  end    what the HAL considers live and what every terminal received;     *)
+(*         (shown, from its Write calls) and HOLDS at the end (held, the     *)
+(*         non-blank cells of the real terminal buffer in row-major order);  *)
 (*         sink = id of the terminal that is the log sink, 0 for the early   *)
 (*         ring, -1 for a writer the harness cannot identify (delivery is    *)
 (*         then judged by the log check alone)                               *)
@@ -27,7 +29,9 @@
 (* Checked: probe order non-decreasing, every driver probed once; a failed   *)
 (* driver is never active and is reported; the first successfully            *)
 (* initialised console / terminal are the active pair and nothing else is    *)
-(* ever attached or activated; once both exist the terminal is attached to   *)
+(* ever attached or activated, and the pair is attached exactly once (a       *)
+(* second AttachTo blanks the terminal); the terminal still holds at the end  *)
+(* every byte it received; once both exist the terminal is attached to        *)
 (* the console, active and the log sink; and the log the terminal received   *)
 (* is  Suffix(everything logged before the link, RingCap) \o everything      *)
 (* logged after it  -  judged on the injected bytes (exact subsequence       *)
@@ -48,7 +52,7 @@ Contains(hay, needle) == \E i \in 0..(Len(hay) - Len(needle)) : SubSeq(hay, i + 
 KthInj(bs, k) == LET pos == SelectSeq([i \in 1..Len(bs) |-> i], LAMBDA i : IsInj(bs[i])) IN IF k >= 1 /\ k <= Len(pos) THEN pos[k] ELSE 0
 
 S0 == [drv |-> <<>>, probed |-> <<>>, failed |-> {}, okd |-> {}, actTTY |-> 0, actCons |-> 0, linked |-> FALSE,
-       pre |-> <<>>, post |-> <<>>, lateFail |-> {}, lastOrder |-> -1000]
+       pre |-> <<>>, post |-> <<>>, lateFail |-> {}, lastOrder |-> -1000, nattach |-> 0]
 
 Drv(s, id) == LET S == {i \in 1..Len(s.drv) : s.drv[i].id = id} IN IF S = {} THEN [id |-> 0, order |-> 0, kind |-> "none", name |-> <<>>, msg |-> <<>>]
                                                                        ELSE s.drv[CHOOSE i \in S : TRUE]
@@ -91,8 +95,11 @@ Mon(s, e) ==
                          !.lateFail = IF ~e.ok /\ s1.linked THEN @ \cup {e.id} ELSE @],
         cs |-> << <<"C16", e.id \notin Range(s.probed), <<"driver initialised without being probed", e.id>> >> >>]
   ELSE IF e.k = "attach" THEN
-    [s |-> s, cs |-> << <<"C16", ~s.linked \/ e.tty # s.actTTY \/ e.cons # s.actCons,
-                          <<"only the first terminal may be attached, to the first console: attach", e.tty, e.cons, "active pair", s.actTTY, s.actCons>> >> >>]
+    [s |-> [s EXCEPT !.nattach = @ + 1],
+     cs |-> << <<"C16", ~s.linked \/ e.tty # s.actTTY \/ e.cons # s.actCons,
+                 <<"only the first terminal may be attached, to the first console: attach", e.tty, e.cons, "active pair", s.actTTY, s.actCons>> >>,
+               <<"C16", s.nattach >= 1,
+                 <<"the active pair is linked exactly once: attaching the terminal again discards what it holds; attach number", s.nattach + 1>> >> >>]
   ELSE IF e.k = "state" THEN
     [s |-> s, cs |-> << <<"C16", e.st # 0 /\ (~s.linked \/ e.tty # s.actTTY),
                           <<"a terminal other than the linked first one was activated", e.tty, "active", s.actTTY, s.linked>> >> >>]
@@ -108,7 +115,10 @@ Mon(s, e) ==
                            <<"terminal not attached / active / log sink after both devices came up: sink", e.sink, "state", e.state, "attached", e.attached>> >>,
                   <<"C16", ~s.linked /\ e.sink # 0, <<"log sink switched although no terminal/console pair exists", e.sink>> >>,
                   <<"C16", \E i \in 1..Len(e.shown) : e.shown[i].id # s.actTTY /\ e.shown[i].v # <<>>,
-                           <<"a terminal that is not the active one received log output">> >> >>
+                           <<"a terminal that is not the active one received log output">> >>,
+                  <<"C16", s.linked /\ Inj(Lookup(e.held, s.actTTY, <<>>)) # Inj(R),
+                           <<"the active terminal no longer holds the log it received (content discarded after the link): received",
+                             Len(Inj(R)), "injected bytes, holds", Len(Inj(Lookup(e.held, s.actTTY, <<>>)))>> >> >>
                   \o LogChecks(s, R)]
   ELSE IF e.k = "panic" THEN [s |-> s, cs |-> << <<"C16", TRUE, <<"DetectHardware panicked">> >> >>]
   ELSE [s |-> S0, cs |-> <<>>]          \* scenario / reset
